@@ -154,9 +154,39 @@ Proof.
   destruct (IH (apply_icall w c)) as [A B]. destruct (apply_icall_frame w c) as [A' B']. split; congruence.
 Qed.
 
+(* the event queue never holds more than d_cap events *)
+Definition capok (s : state) : Prop := u_count (u s) <= d_cap D.
+
+Lemma push_cap : forall s ci t, capok s -> capok (fst (push_unsolicited_cmd D s ci t)).
+Proof.
+  intros s ci t H. unfold push_unsolicited_cmd, ring_full, cap, capok in *.
+  destruct (Nat.eqb_spec (u_count (u s)) (d_cap D)) as [E|E]; cbn [fst]; [exact H|].
+  destruct (_ <? _); sproj; lia.
+Qed.
+
+Lemma apply_icall_cap : forall w c, capok (st w) -> capok (st (apply_icall w c)).
+Proof.
+  intros w c H. unfold Fsm.apply_icall.
+  assert (X : capok (st (fst (match c with
+                 | ITrigger ci t => Fsm.api_trigger D sio smu shs s_lock s_unlock w ci t
+                 | IHoldExit status => Fsm.api_hold_exit D sio smu shs s_lock s_unlock w status end)))).
+  { destruct c as [ci t|z]; unfold Fsm.api_trigger, Fsm.api_hold_exit;
+      apply (bracket_st D sio smu shs s_lock s_unlock capok); try exact H; intros w' E.
+    - pose proof (push_cap (st w') ci t) as Y. rewrite E in *. specialize (Y H).
+      destruct (push_unsolicited_cmd D (st w) ci t) as [s' r]. exact Y.
+    - unfold hold_exit. rewrite E. destruct (negb _); cbn [fst Fsm.st Fsm.set_st]; exact H. }
+  destruct (match c with ITrigger ci t => _ | IHoldExit status => _ end) as [w' r]. exact X.
+Qed.
+
+Lemma fold_icall_cap : forall l w, capok (st w) -> capok (st (fold_left apply_icall l w)).
+Proof.
+  induction l as [|c l IH]; intros w H; [exact H|]. cbn [fold_left]. apply IH, apply_icall_cap, H.
+Qed.
+
 Lemma call_h_cases : forall w q, SOK (hs w) ->
   let w1 := fst (call_h w q) in let r := snd (call_h w q) in
   SOK (hs w1) /\ io w1 = io w /\ hrel D m (st w) (st w1) /\ (r_code r =? RC_HOLD)%Z = false /\
+  (capok (st w) -> capok (st w1)) /\
   ((st w1 = st w /\ hs w1 = hs w /\ r = default_res q) \/ script_left (hs w1) < script_left (hs w)).
 Proof.
   intros w q H. cbv zeta. unfold Fsm.call_h.
@@ -169,6 +199,8 @@ Proof.
   { apply (fold_icall_hrel D m WF); [apply res_calls_ok_Forall; exact C|].
     subst w2. wcbn. apply (fold_poke_hrel D m). apply hrel_refl. }
   split; [unfold no_hold_res in B; apply negb_true_iff in B; exact B|].
+  split.
+  { intros Hcap. apply fold_icall_cap. subst w2. wcbn. unfold capok. rewrite u_fold_poke. exact Hcap. }
   destruct Cs as [[E1 E2] | E].
   - left. subst h' r. destruct q; cbn [default_res r_calls r_pokes fold_left] in *; subst w2; wcbn; auto.
   - right. rewrite F2. subst w2. wcbn. lia.
@@ -200,17 +232,87 @@ Proof.
   split; congruence.
 Qed.
 
+(* what one productive step does: a script entry is consumed; or an input byte; or the command
+   machine moves down its rank with the event machine untouched; or the event machine pops an
+   event / moves down its rank with the command machine's record untouched *)
+Definition Prog (w w2 : sworld) : Prop :=
+  (script_left (hs w2) < script_left (hs w) /\ inq (io w2) = inq (io w)) \/
+  (script_left (hs w2) = script_left (hs w) /\ length (inq (io w2)) < length (inq (io w)) /\
+   u (st w2) = u (st w)) \/
+  (script_left (hs w2) = script_left (hs w) /\ inq (io w2) = inq (io w) /\
+   u (st w2) = u (st w) /\ lexlt (cC (st w2)) (cC (st w))) \/
+  (script_left (hs w2) = script_left (hs w) /\ inq (io w2) = inq (io w) /\
+   k (st w2) = k (st w) /\ lexlt (mU (st w2)) (mU (st w))).
+
+(* nothing that the measures see has changed *)
+Definition Same (w w2 : sworld) : Prop :=
+  st w2 = st w /\ script_left (hs w2) = script_left (hs w) /\ inq (io w2) = inq (io w).
+
+Lemma cC_ext : forall s s', k s' = k s -> cC s' = cC s.
+Proof. intros s s' E. unfold Lemmas_C15ba.cC, cfl, fpre. rewrite E. reflexivity. Qed.
+
+Lemma Prog_lex : forall w w2, Prog w w2 -> lexlt (M w2) (M w).
+Proof.
+  intros w w2 [(A & B) | [(A & B & C) | [(A & B & C & E) | (A & B & C & E)]]]; unfold M; cbn [lexlt].
+  - left. exact A.
+  - right. split; [exact A|]. left. rewrite C. lia.
+  - right. split; [exact A|]. right. rewrite B, C. split; [reflexivity|].
+    rewrite (cU_ext _ _ C). apply lexlt_app_eq. exact E.
+  - right. split; [exact A|]. rewrite B, (cC_ext _ _ C). unfold Lemmas_C15ba.mU in E. cbn [lexlt] in E.
+    destruct E as [E | [E1 E2]]; [left; lia|].
+    right. split; [lia|]. apply lexlt_app_lt; [rewrite !cU_len; reflexivity | exact E2].
+Qed.
+
+Lemma Same_M : forall w w2, Same w w2 -> M w2 = M w.
+Proof. intros w w2 (A & B & C). unfold M. rewrite A, B, C. reflexivity. Qed.
+
+(* the same as one number: every script entry is worth a full event queue plus one complete run
+   of both machines, every input byte one run of the command machine, every queued event one run
+   of the event machine *)
+Definition wS : nat := d_cap D * RU D + RU D + RC D.
+Definition Phi (w : sworld) : nat :=
+  script_left (hs w) * wS + length (inq (io w)) * RC D + u_count (u (st w)) * RU D +
+  rU D (st w) + rC D (st w).
+
+Lemma rU_ext : forall s s', u s' = u s -> rU D s' = rU D s.
+Proof. intros s s' E. unfold rU. rewrite (cU_ext _ _ E). reflexivity. Qed.
+Lemma rC_ext : forall s s', k s' = k s -> rC D s' = rC D s.
+Proof. intros s s' E. unfold rC. rewrite (cC_ext _ _ E). reflexivity. Qed.
+
+Lemma Prog_phi : forall w w2, Prog w w2 -> capok (st w2) -> Phi w2 < Phi w.
+Proof.
+  intros w w2 P Hc. unfold Phi, capok in *.
+  pose proof (rU_lt D (st w2)) as HU2. pose proof (rC_lt D (st w2)) as HC2.
+  destruct P as [(A & B) | [(A & B & C) | [(A & B & C & E) | (A & B & C & E)]]].
+  - rewrite B.
+    assert (X1 : S (script_left (hs w2)) * wS <= script_left (hs w) * wS) by (apply Nat.mul_le_mono_r; lia).
+    assert (X2 : u_count (u (st w2)) * RU D <= d_cap D * RU D) by (apply Nat.mul_le_mono_r; lia).
+    rewrite Nat.mul_succ_l in X1. unfold wS in X1 at 2. lia.
+  - rewrite A, C, (rU_ext _ _ C).
+    assert (X1 : S (length (inq (io w2))) * RC D <= length (inq (io w)) * RC D) by (apply Nat.mul_le_mono_r; lia).
+    rewrite Nat.mul_succ_l in X1. lia.
+  - rewrite A, B, C, (rU_ext _ _ C). pose proof (rC_mono D _ _ E). lia.
+  - rewrite A, B, (rC_ext _ _ C). unfold Lemmas_C15ba.mU in E. cbn [lexlt] in E.
+    destruct E as [E | [E1 E2]].
+    + assert (X1 : S (u_count (u (st w2))) * RU D <= u_count (u (st w)) * RU D) by (apply Nat.mul_le_mono_r; lia).
+      rewrite Nat.mul_succ_l in X1. lia.
+    + rewrite E1. pose proof (rU_mono D _ _ E2). lia.
+Qed.
+
+Lemma Same_phi : forall w w2, Same w w2 -> Phi w2 = Phi w.
+Proof. intros w w2 (A & B & C). unfold Phi. rewrite A, B, C. reflexivity. Qed.
+
 (* outcome of one step of the command machine / of the event machine *)
 Definition StepC (w w2 : sworld) (rc : Z) : Prop :=
-  Inv' w2 /\
-  (lexlt (M w2) (M w) \/
-   (M w2 = M w /\ st w2 = st w /\ k_state (k (st w)) <> CS_FLUSH /\
+  Inv' w2 /\ (capok (st w) -> capok (st w2)) /\
+  (Prog w w2 \/
+   (Same w w2 /\ k_state (k (st w)) <> CS_FLUSH /\
     (rc = ST_OK \/ (k_state (k (st w)) = CS_FLUSH_WAIT /\ u_state (u (st w)) = US_FLUSH)))).
 
 Definition StepU (w w1 : sworld) (us : Z) : Prop :=
-  Inv' w1 /\
-  (lexlt (M w1) (M w) \/
-   (M w1 = M w /\ st w1 = st w /\
+  Inv' w1 /\ (capok (st w) -> capok (st w1)) /\
+  (Prog w w1 \/
+   (Same w w1 /\
     ((us = ST_OK /\ u_state (u (st w)) = US_IDLE) \/ k_state (k (st w)) = CS_FLUSH))).
 
 (* the io of w1 is that of w up to the (empty) schedules *)
@@ -225,20 +327,19 @@ Proof. intros w w1 (_ & _ & R1 & R2 & _) E. unfold io_same. rewrite E. auto. Qed
 Lemma stepC_pure : forall w w1 s' rc, Inv w -> hs w1 = hs w -> io_same w w1 ->
   PC (st w) s' -> StepC w (set_st s' w1) rc.
 Proof.
-  intros w w1 s' rc (HS & Hnh & R1 & R2 & HK) E2 (I1 & I2 & I3) (A & B & C). split.
+  intros w w1 s' rc (HS & Hnh & R1 & R2 & HK) E2 (I1 & I2 & I3) (A & B & C). split; [|split].
   - unfold Inv'. wcbn. rewrite E2. auto.
-  - left. unfold M. wcbn. rewrite E2, I1, A, (cU_ext _ _ A). cbn [lexlt].
-    right. split; [reflexivity|]. right. split; [reflexivity|]. apply lexlt_app_eq. exact C.
+  - unfold capok. wcbn. rewrite A. auto.
+  - left. right. right. left. wcbn. rewrite E2. auto.
 Qed.
 
 Lemma stepU_pure : forall w w1 s' us, Inv w -> hs w1 = hs w -> io_same w w1 ->
   PU (st w) s' -> StepU w (set_st s' w1) us.
 Proof.
-  intros w w1 s' us (HS & Hnh & R1 & R2 & HK) E2 (I1 & I2 & I3) (_ & B & C). split.
+  intros w w1 s' us (HS & Hnh & R1 & R2 & HK) E2 (I1 & I2 & I3) (K & B & C). split; [|split].
   - unfold Inv'. wcbn. rewrite E2. auto.
-  - left. unfold M. wcbn. rewrite E2, I1. unfold Lemmas_C15ba.mU in C. cbn [lexlt] in *.
-    right. split; [reflexivity|]. destruct C as [C | [C1 C2]]; [left; lia|].
-    right. split; [lia|]. apply lexlt_app_lt; [rewrite !cU_len; reflexivity | exact C2].
+  - unfold capok. wcbn. unfold Lemmas_C15ba.mU in C. cbn [lexlt] in C. lia.
+  - left. right. right. right. wcbn. rewrite E2. auto.
 Qed.
 
 Definition StepG (f : fsm) (w w2 : sworld) (rc : Z) : Prop :=
@@ -248,23 +349,25 @@ Lemma stepG_pure : forall f w w1 s' rc, Inv w -> hs w1 = hs w -> io_same w w1 ->
   PG f (st w) s' -> StepG f w (set_st s' w1) rc.
 Proof. intros [|] w w1 s' rc; [apply stepC_pure | apply stepU_pure]. Qed.
 
-Lemma stepG_consumed : forall f w w2 rc, Inv' w2 -> script_left (hs w2) < script_left (hs w) ->
+Lemma stepG_consumed : forall f w w2 rc, Inv' w2 -> (capok (st w) -> capok (st w2)) ->
+  script_left (hs w2) < script_left (hs w) -> inq (io w2) = inq (io w) ->
   StepG f w w2 rc.
 Proof.
-  intros f w w2 rc HI H. assert (L : lexlt (M w2) (M w)) by (unfold M; cbn [lexlt]; left; exact H).
-  destruct f; (split; [exact HI | left; exact L]).
+  intros f w w2 rc HI Hc H E.
+  destruct f; (split; [exact HI | split; [exact Hc | left; left; split; assumption]]).
 Qed.
 
 (* elimination principle for one callback *)
 Lemma call_split : forall w q (P : sworld * hres -> Prop), SOK (hs w) ->
   (forall w1, st w1 = st w -> hs w1 = hs w -> io w1 = io w -> P (w1, default_res q)) ->
   (forall w1 r, SOK (hs w1) -> io w1 = io w -> hrel D m (st w) (st w1) ->
-     (r_code r =? RC_HOLD)%Z = false -> script_left (hs w1) < script_left (hs w) -> P (w1, r)) ->
+     (r_code r =? RC_HOLD)%Z = false -> (capok (st w) -> capok (st w1)) ->
+     script_left (hs w1) < script_left (hs w) -> P (w1, r)) ->
   P (call_h w q).
 Proof.
   intros w q P H Hd Hc. pose proof (call_h_cases w q H) as X. cbv zeta in X.
   destruct (call_h w q) as [w1 r]. cbn [fst snd] in X.
-  destruct X as (A & B & C & E & [(E1 & E2 & E3) | L]).
+  destruct X as (A & B & C & E & Cp & [(E1 & E2 & E3) | L]).
   - subst r. apply Hd; assumption.
   - apply Hc; assumption.
 Qed.
@@ -290,6 +393,20 @@ Proof.
   intros w w1 s' (_ & _ & R1 & R2 & _) H E Hn. unfold Inv'. wcbn. rewrite E. auto.
 Qed.
 
+Lemma consumed_after : forall f w w1 s' rc, Inv w -> SOK (hs w1) -> io w1 = io w ->
+  script_left (hs w1) < script_left (hs w) -> (capok (st w) -> capok (st w1)) ->
+  NH s' -> u_count (u s') <= u_count (u (st w1)) -> StepG f w (set_st s' w1) rc.
+Proof.
+  intros f w w1 s' rc HI H1 E3 L Hcap Hn Hu. apply stepG_consumed.
+  - apply (inv'_after w); assumption.
+  - intros Hc0. specialize (Hcap Hc0). unfold capok in *. wcbn. lia.
+  - wcbn. exact L.
+  - wcbn. rewrite E3. reflexivity.
+Qed.
+
+Lemma FR_le : forall f s s', FR f s s' -> u_count (u s') <= u_count (u s).
+Proof. intros [|] s s' H; cbn in H; rewrite H; lia. Qed.
+
 (* cat.c:2220, 2295 *)
 Lemma rt_loop_step : forall rd f w, Inv w -> loop_state f (st w) ->
   StepG f w (fst (process_rt_loop rd f w)) (snd (process_rt_loop rd f w)).
@@ -302,12 +419,13 @@ Proof.
     assert (X : PG f (st w) (rt_tail D rd f (mkHres RC_OK None [] []) (st w)))
       by (apply rt_tail_default_PG; assumption).
     destruct rd; (apply stepG_pure; [exact HI | exact E2 | apply io_same_eq; assumption | exact X]).
-  - intros w1 r H1 E3 R Hc1 L. wred. apply stepG_consumed; [|wcbn; exact L].
-    apply (inv'_after w); [exact HI | exact H1 | exact E3 |].
+  - intros w1 r H1 E3 R Hc1 Hcap L. wred.
     pose proof (hrel_NH _ _ R Hnh) as Hn1. pose proof (hrel_loop D m f _ _ R Hst) as Hst1.
     destruct R as (R1' & _). specialize (R1' HS).
     destruct (apply_edit_loop D m f (r_edit r) (st w1) R1' Hst1) as (_ & C2 & _).
-    exact (rt_tail_NH D rd f r (st w1) Hn1 Hc1 C2).
+    apply (consumed_after f w w1); try assumption.
+    + exact (rt_tail_NH D rd f r (st w1) Hn1 Hc1 C2).
+    + apply (FR_le f). exact (rt_tail_FR D rd f r (st w1) Hn1 C2).
 Qed.
 
 
@@ -334,13 +452,14 @@ Proof.
     + intros w1 E1' E2' E3'. cbn [default_res r_code Z.eqb negb]. wred. rewrite E1'.
       apply stepG_pure; [exact HI | exact E2' | apply io_same_eq; assumption |].
       apply Body; auto.
-    + intros w1 r H1 E3' R Hc1 L.
+    + intros w1 r H1 E3' R Hc1 Hcap L.
       destruct (hrel_fmt D m f _ _ true R Hst) as (Hst1 & Ec1 & Ev1).
       pose proof (hrel_NH _ _ R Hnh) as Hn1. destruct R as (R1' & _). specialize (R1' HS).
-      destruct (negb (r_code r =? 0)%Z); wred; (apply stepG_consumed; [|wcbn; exact L]);
-        (apply (inv'_after w); [exact HI | exact H1 | exact E3' |]).
+      destruct (negb (r_code r =? 0)%Z); wred; apply (consumed_after f w w1); try assumption.
       * apply NH_end_with_error; exact Hn1.
+      * destruct f; cbn; lia.
       * eapply PG_NH. apply Body; assumption.
+      * eapply PG_cap. apply Body; assumption.
   - wred. apply stepG_pure; [exact HI | reflexivity | apply io_same_refl; exact HI |]. apply Body; auto.
 Qed.
 
@@ -357,9 +476,10 @@ Proof.
   - intros w1 E1 E2 E3. wred. rewrite E1.
     apply stepC_pure; [exact HI | exact E2 | apply io_same_eq; assumption |].
     exact (write_tail_default_PC D (st w) Hnh Hst).
-  - intros w1 r H1 E3 R Hc1 L. wred. apply (stepG_consumed ATCMD); [|wcbn; exact L].
-    apply (inv'_after w); [exact HI | exact H1 | exact E3 |].
-    exact (write_tail_NH (r_code r) (st w1) (hrel_NH _ _ R Hnh) Hc1).
+  - intros w1 r H1 E3 R Hc1 Hcap L. wred. apply (consumed_after ATCMD w w1); try assumption.
+    + exact (write_tail_NH (r_code r) (st w1) (hrel_NH _ _ R Hnh) Hc1).
+    + match goal with |- u_count (u ?x) <= _ => change x with (write_tail (r_code r) (st w1)) end.
+      rewrite write_tail_u. lia.
 Qed.
 
 (* cat.c:2173 *)
@@ -375,9 +495,10 @@ Proof.
   - intros w1 E1 E2 E3. wred. rewrite E1.
     apply stepC_pure; [exact HI | exact E2 | apply io_same_eq; assumption |].
     exact (run_tail_default_PC D (st w) Hnh Hst).
-  - intros w1 r H1 E3 R Hc1 L. wred. apply (stepG_consumed ATCMD); [|wcbn; exact L].
-    apply (inv'_after w); [exact HI | exact H1 | exact E3 |].
-    exact (run_tail_NH D (r_code r) (st w1) (hrel_NH _ _ R Hnh) Hc1).
+  - intros w1 r H1 E3 R Hc1 Hcap L. wred. apply (consumed_after ATCMD w w1); try assumption.
+    + exact (run_tail_NH D (r_code r) (st w1) (hrel_NH _ _ R Hnh) Hc1).
+    + match goal with |- u_count (u ?x) <= _ => change x with (run_tail D (r_code r) (st w1)) end.
+      rewrite run_tail_u. lia.
 Qed.
 
 
@@ -416,13 +537,16 @@ Proof.
     + split_call; [exact HK | |].
       * intros w1 E1' E2' E3'. cbn [default_res r_code Z.eqb negb]. wred. rewrite E1'. cbn [Fsm.st Fsm.set_st].
         apply stepC_pure; [exact HI | exact E2' | apply io_same_eq; [exact HI | exact E3'] | exact T2].
-      * intros w1 r H1 E3' R Hcd L. cbn [Fsm.st Fsm.set_st Fsm.hs Fsm.io] in *.
+      * intros w1 r H1 E3' R Hcd Hcap L. cbn [Fsm.st Fsm.set_st Fsm.hs Fsm.io] in *.
         pose proof (hrel_NH _ _ R Hn2) as Hn3. destruct R as (_ & _ & K & _).
         destruct (kv_proj _ _ K) as (K1 & K2 & _).
-        destruct (negb (r_code r =? 0)%Z); wred; (apply (stepG_consumed ATCMD); [|wcbn; exact L]);
-          (apply (inv'_after w); [exact HI | exact H1 | exact E3' |]).
+        assert (T3 : PC (st w1) (pwa_tail c comma (st w1)))
+          by (apply Tail; [exact Hn3 | rewrite K1; exact Hst | rewrite K2; exact E1]).
+        destruct (negb (r_code r =? 0)%Z); wred; apply (consumed_after ATCMD w w1); try assumption.
         -- apply (NH_end_with_error ATCMD); exact Hn3.
-        -- eapply (PG_NH ATCMD). apply Tail; [exact Hn3 | rewrite K1; exact Hst | rewrite K2; exact E1].
+        -- cbn. lia.
+        -- exact (PG_NH ATCMD _ _ T3).
+        -- exact (PG_cap D ATCMD _ _ T3).
     + wred. cbn [Fsm.st Fsm.set_st].
       apply stepC_pure; [exact HI | reflexivity | apply io_same_eq; [exact HI | reflexivity] | exact T2].
 Qed.
@@ -446,9 +570,10 @@ Proof.
   intros w body HI Hnf Hb. pose proof HI as (HS & Hnh & R1 & R2 & HK).
   unfold Fsm.reading, Fsm.read_cmd_char, s_read. rewrite R1. cbn [pop_bit].
   destruct (inq (io w)) as [|c q] eqn:Ei.
-  - cbn [negb fst snd]. split.
+  - cbn [negb fst snd]. split; [|split].
     + unfold Inv'. wcbn. auto.
-    + right. split; [unfold M; wcbn; rewrite Ei; reflexivity|]. split; [reflexivity|].
+    + auto.
+    + right. split; [unfold Same; wcbn; rewrite Ei; auto|].
       split; [exact Hnf | left; reflexivity].
   - cbn [negb]. wred. wcbn.
     match goal with |- context [body _ ?s2] => set (s2' := s2) end.
@@ -456,10 +581,10 @@ Proof.
     assert (Hk2 : k_state (k s2') = k_state (k (st w))) by (subst s2'; destruct (_ && _); reflexivity).
     assert (Hc2 : k_cmd (k s2') = k_cmd (k (st w))) by (subst s2'; destruct (_ && _); reflexivity).
     assert (Hu2 : u s2' = u (st w)) by (subst s2'; destruct (_ && _); reflexivity).
-    destruct (Hb (k_char (k s2')) s2' Hn2 Hk2 Hc2) as [B1 B2]. split.
+    destruct (Hb (k_char (k s2')) s2' Hn2 Hk2 Hc2) as [B1 B2]. split; [|split].
     + unfold Inv'. wcbn. auto.
-    + left. unfold M. wcbn. rewrite Ei, B2, Hu2. cbn [lexlt length inq].
-      right. split; [reflexivity|]. left. lia.
+    + unfold capok. wcbn. rewrite B2, Hu2. auto.
+    + left. right. left. wcbn. rewrite Ei, B2, Hu2. cbn [length]. auto.
 Qed.
 
 Lemma s_write_ready : forall x ch, wr_sched x = [] -> s_write x ch = (mkSio (inq x) (rd_sched x) [], true).
@@ -540,9 +665,10 @@ Proof.
   - apply run_loop_step; assumption.
   - destruct Hnh as [_ B]. congruence.
   - destruct (ustate_eq_dec (u_state (u (st w))) US_FLUSH) as [E|E].
-    + wred. unfold process_io_write_wait. rewrite E. cbn [ustate_beq negb]. split.
+    + wred. unfold process_io_write_wait. rewrite E. cbn [ustate_beq negb]. split; [|split].
       * unfold Inv'. wcbn. auto.
-      * right. split; [reflexivity|]. split; [reflexivity|]. split; [congruence|]. right. auto.
+      * auto.
+      * right. split; [repeat split; reflexivity|]. split; [congruence|]. right. auto.
     + pure_c HI. apply wait_PC; assumption.
   - apply flush_step_C; assumption.
   - pure_c HI. apply reset_PC; assumption.
@@ -560,7 +686,7 @@ Proof.
   unfold Fsm.unsolicited_events_service.
   destruct (u_state (u (st w))) eqn:Hst; unfold US in HUS; rewrite Hst in HUS.
   - destruct (ring_empty (st w)) eqn:Er; cbn [negb].
-    + cbn [fst snd]. split; [exact (proj2 HI)|]. right. split; [reflexivity|]. split; [reflexivity|]. left. auto.
+    + cbn [fst snd]. split; [exact (proj2 HI)|]. split; [auto|]. right. split; [repeat split; reflexivity|]. left. auto.
     + wred. apply stepU_pure; [exact HI | destruct (ring_items D (st w)); reflexivity | |].
       * destruct (ring_items D (st w)); apply io_same_eq; try exact HI; reflexivity.
       * replace (st match ring_items D (st w) with [] => w | it :: _ => logw (EPop (fst it) (snd it)) w end)
@@ -571,9 +697,10 @@ Proof.
   - apply (rt_loop_step true UNSOL); [exact HI | left; exact Hst].
   - apply (rt_loop_step false UNSOL); [exact HI | right; exact Hst].
   - destruct (cstate_eq_dec (k_state (k (st w))) CS_FLUSH) as [E|E].
-    + wred. unfold unsolicited_process_io_write_wait. rewrite E. cbn [cstate_beq negb]. split.
+    + wred. unfold unsolicited_process_io_write_wait. rewrite E. cbn [cstate_beq negb]. split; [|split].
       * unfold Inv'. wcbn. auto.
-      * right. split; [reflexivity|]. split; [reflexivity|]. right. exact E.
+      * auto.
+      * right. split; [repeat split; reflexivity|]. right. exact E.
     + pure_u HI. apply wait_PU; assumption.
   - apply flush_step_U; assumption.
   - pure_u HI. apply ureset_PU; [exact Hnh|]. unfold Lemmas_C15ba.cU. rewrite Hst. cbn. lia.
@@ -589,28 +716,37 @@ Qed.
 (* one cat_service call                                                 *)
 (* ------------------------------------------------------------------ *)
 
+Definition Dec (w w2 : sworld) : Prop :=
+  lexlt (M w2) (M w) /\ (capok (st w) -> Phi w2 < Phi w).
+
 Theorem body_step : forall w, Inv w ->
-  Inv (fst (s_body w)) /\ (lexlt (M (fst (s_body w))) (M w) \/ snd (s_body w) = ST_OK).
+  Inv (fst (s_body w)) /\ (capok (st w) -> capok (st (fst (s_body w)))) /\
+  (Dec w (fst (s_body w)) \/ snd (s_body w) = ST_OK).
 Proof.
   intros w HI. pose proof HI as (HS & Hnh & R1 & R2 & HK).
-  pose proof (s_uns_step w HI) as [HI1' HU]. pose proof (s_uns_safe w HK HS) as HS1.
+  pose proof (s_uns_step w HI) as (HI1' & Hc1 & HU). pose proof (s_uns_safe w HK HS) as HS1.
   unfold Fsm.service_body. destruct (s_uns w) as [w1 us]. cbn [fst snd] in *.
   assert (HI1 : Inv w1) by (split; assumption).
-  pose proof (s_cmd_step w1 HI1) as [HI2' HC]. pose proof (s_cmd_safe w1 (proj2 (proj2 (proj2 HI1'))) HS1) as HS2.
+  pose proof (s_cmd_step w1 HI1) as (HI2' & Hc2 & HC).
+  pose proof (s_cmd_safe w1 (proj2 (proj2 (proj2 HI1'))) HS1) as HS2.
   destruct (s_cmd w1) as [w2 rc]. cbn [fst snd] in *.
   assert (HI2 : Inv w2) by (split; assumption).
-  assert (X : lexlt (M w2) (M w) \/
-              (us = ST_OK /\ u_state (u (st w2)) = US_IDLE /\ rc = ST_OK)).
-  { destruct HU as [HU | (EM1 & ES1 & HU)]; destruct HC as [HC | (EM2 & ES2 & Hnf & HC)].
-    - left. eapply lexlt_trans; eassumption.
-    - left. rewrite EM2. exact HU.
-    - left. rewrite <- EM1. exact HC.
-    - rewrite ES1 in *. destruct HU as [[U1 U2] | U]; [|congruence].
+  assert (X : Dec w w2 \/ (us = ST_OK /\ u_state (u (st w2)) = US_IDLE /\ rc = ST_OK)).
+  { destruct HU as [HU | (EM1 & HU)]; destruct HC as [HC | (EM2 & Hnf & HC)].
+    - left. split; [eapply lexlt_trans; apply Prog_lex; eassumption|].
+      intros C0. pose proof (Prog_phi _ _ HU (Hc1 C0)). pose proof (Prog_phi _ _ HC (Hc2 (Hc1 C0))). lia.
+    - left. split; [rewrite (Same_M _ _ EM2); apply Prog_lex; exact HU|].
+      intros C0. rewrite (Same_phi _ _ EM2). exact (Prog_phi _ _ HU (Hc1 C0)).
+    - left. split; [rewrite <- (Same_M _ _ EM1); apply Prog_lex; exact HC|].
+      intros C0. rewrite <- (Same_phi _ _ EM1). exact (Prog_phi _ _ HC (Hc2 (Hc1 C0))).
+    - destruct EM1 as (ES1 & _). destruct EM2 as (ES2 & _). rewrite ES1 in *.
+      destruct HU as [[U1 U2] | U]; [|congruence].
       destruct HC as [C | [_ C]]; [|congruence].
       right. rewrite ES2. auto. }
+  assert (Hc : capok (st w) -> capok (st w2)) by auto.
   destruct X as [X | (X1 & X2 & X3)].
-  - destruct (_ || _); cbn [fst snd]; (split; [exact HI2 | left; exact X]).
-  - subst us rc. rewrite X2. cbn. split; [exact HI2 | right; reflexivity].
+  - destruct (_ || _); cbn [fst snd]; (split; [exact HI2 | split; [exact Hc | left; exact X]]).
+  - subst us rc. rewrite X2. cbn. split; [exact HI2 | split; [exact Hc | right; reflexivity]].
 Qed.
 
 Local Notation s_do := (Fsm.do_op D sio smu shs s_read s_write s_lock s_unlock s_call).
@@ -623,7 +759,7 @@ Theorem reaches_ok : forall w, d_mutex D = false -> Inv w ->
 Proof.
   intros w Hmx. pose proof (lexR_wf_len 9 (M w) (M_len w)) as A.
   remember (M w) as l eqn:El. revert w El. induction A as [l _ IH]. intros w El HI.
-  destruct (body_step w HI) as [HI2 [L | E]].
+  destruct (body_step w HI) as (HI2 & _ & [[L _] | E]).
   - destruct (IH (M (svc D w))) with (w := svc D w) as [n Hn].
     + subst l. unfold svc, Fsm.step. cbn [Fsm.do_op]. unfold Fsm.api_service, Fsm.bracket. rewrite Hmx.
       destruct (s_body w) as [w2 r]. cbn [fst snd] in *. split; [rewrite !M_len; reflexivity | exact L].
@@ -632,6 +768,27 @@ Proof.
       destruct (s_body w) as [w2 r]. cbn [fst snd] in *. exact HI2.
     + exists (S n). exact Hn.
   - exists 0. cbn [nsvc iter Fsm.do_op]. unfold Fsm.api_service, Fsm.bracket. rewrite Hmx. exact E.
+Qed.
+
+(* the explicit bound: the number of calls is at most the potential of the starting world *)
+Theorem reaches_ok_bound : forall w, d_mutex D = false -> Inv w -> capok (st w) ->
+  exists n, n <= Phi w /\ snd (s_do (nsvc D n w) OService) = ST_OK.
+Proof.
+  intros w Hmx. remember (Phi w) as p eqn:Ep. revert w Ep.
+  induction p as [p IH] using lt_wf_ind. intros w Ep HI Hc.
+  destruct (body_step w HI) as (HI2 & Hc2 & [[_ L] | E]).
+  - specialize (L Hc). specialize (Hc2 Hc).
+    assert (Es : exists w2 r, s_body w = (w2, r) /\ svc D w = logw (ERet OService r) w2).
+    { unfold svc, Fsm.step. cbn [Fsm.do_op]. unfold Fsm.api_service, Fsm.bracket. rewrite Hmx.
+      destruct (s_body w) as [w2 r]. eauto. }
+    destruct Es as (w2 & r & Eb & Es). rewrite Eb in *. cbn [fst snd] in *.
+    destruct (IH (Phi (svc D w))) with (w := svc D w) as (n & Hn & Ho).
+    + subst p. rewrite Es. exact L.
+    + reflexivity.
+    + rewrite Es. exact HI2.
+    + rewrite Es. exact Hc2.
+    + exists (S n). split; [|exact Ho]. rewrite Es in Hn. change (Phi (logw (ERet OService r) w2)) with (Phi w2) in Hn. lia.
+  - exists 0. split; [lia|]. cbn [nsvc iter Fsm.do_op]. unfold Fsm.api_service, Fsm.bracket. rewrite Hmx. exact E.
 Qed.
 
 End Scripted.
